@@ -3,7 +3,7 @@ import ast
 import z3
 from .values import *
 from .core import Path, SCHEMA
-from .expr import PathAbort, UNBOUND, VBoundStr, VBoundColl, MaybeUnbound
+from .expr import PathAbort, UNBOUND, VBoundStr, VBoundColl, MaybeUnbound, VBoundPy
 
 MAX_INLINE_DEPTH = 12
 # specification functions read the model only: operation-object fields do not version them
@@ -106,6 +106,10 @@ class CallMixin:
             return [(self.coll_method(callee, args, kwargs, path, node), path)]
         if isinstance(callee, VLambda):
             return [(self.call_lambda(callee, args, path), path)]
+        if isinstance(callee, VBoundPy):
+            # method of an opaque library object: unconstrained result; it may change what later attribute reads see
+            self.ctx.opaque_attrs.clear()
+            return [(VPy(self.ctx.fresh('py_' + callee.name, self.ctx.sorts.PyVal)), path)]
         raise OutOfReach(f'call of {callee.kind} (line {ln})')
 
     def call_lambda(self, lam, args, path):
@@ -422,7 +426,10 @@ class CallMixin:
         if name in EXCEPTIONS or any(b in EXCEPTIONS for b in [c.name for c in ctx.index.mro(ci)]) or 'Exception' in ci.bases:
             return [(VExc(name, args), path)]
         if name not in SCHEMA and not any(c in SCHEMA for c in ctx.class_chain(name)):
-            raise OutOfReach(f'construction of {name}')
+            # a class outside the heap schema (library or helper object): an opaque value
+            ctx.opaque_attrs.clear()
+            ctx.assumptions.add(f'objects of class {name} are opaque values')
+            return [(VPy(ctx.fresh('obj_' + name, ctx.sorts.PyVal)), path)]
         t = ctx.fresh('new_' + name, ctx.sorts.ref(name))
         obj = VRef(name, t)
         path.assume(t != ctx.sorts.null(name))
